@@ -103,8 +103,9 @@ func (h *H) vio(fn, kind, detail string) {
 }
 
 // check runs one (primitive,value) case.
-//   enc: bytes produced by the real encoder; ref: reference bytes (nil = skip byte comparison)
-//   dec: real decoder; want: expected value
+//
+//	enc: bytes produced by the real encoder; ref: reference bytes (nil = skip byte comparison)
+//	dec: real decoder; want: expected value
 func (h *H) check(fn, label string, enc, ref []byte, dec func(io.Reader) (any, error), want any) {
 	h.r.Eval(1)
 	k := fn + "|" + label
